@@ -106,6 +106,24 @@ sub c_ifexpr_cookie {
   set resp.http.Del = if(setcookie.delete_by_name(resp, "sid"), "deleted", "absent");
 }
 
+sub c_block {
+  set req.http.Trace = "a";
+  {
+    set req.http.Trace = req.http.Trace "b";
+    log "block:b";
+    {
+      set req.http.Trace = req.http.Trace "c";
+    }
+    if (req.http.In == "x") {
+      {
+        set req.http.Trace = req.http.Trace "x";
+        log "block:x";
+      }
+    }
+  }
+  set req.http.Trace = req.http.Trace "d";
+}
+
 sub c_goto {
   if (req.http.In == "skip") {
     goto done;
